@@ -184,7 +184,7 @@ PROPS = {
         bounded=[('plonky2', ['c17_', 'c18_c17_'])],
         bounded_thorough=[('plonky2', ['t17_'])],
         vspecs=['contracts/C17/serialization.vspec'],
-        level_text='Unbounded deductive proof (Verus/Z3) for the primitive readers/writers (u8, bool, u32, usize, field) and the vector ones (usize_vec, field_vec): write_T appends exactly enc_T(x); read_T '
+        level_text='Unbounded deductive proof (Verus/Z3) for the primitive readers/writers (u8, bool, u16, u32, usize, field) and the vector ones (usize_vec, field_vec, lookup tables as (u16, u16) rows): write_T appends exactly enc_T(x); read_T '
                    'consumes exactly those bytes, fails exactly on short input (read_bool also on bytes > 1), never panics; lemmas read_T(write_T(x) ++ tail) '
                    '== (x, tail), for field vectors of every length. Composite readers/writers, the tag registries and "a restored circuit proves interchangeably" are covered by a bounded '
                    'stand-in only.',
